@@ -282,7 +282,7 @@ UNITS["orswot_b"].update({
                   "fixed-capacity vcoll::VVec (2 lines prepended); one `mod` line appended",
     "functions": ["OrSWotSet::diff", "OrSWotSet::purge_old_deletes", "OrSWotSet::add_raw_tombstones", "OrSWotSet::merge", "NodeVersions::merge"],
     "timeout_quick": 1200, "timeout_thorough": 2400,
-    "env": {"VCOLL_CAP": "3"},
+    "env": {"VCOLL_CAP": "4"},
 })
 UNITS["orswot_b"]["slice"][0].update({
     "prepend": ["use vcoll::vvec::VVec as Vec;",
@@ -429,6 +429,13 @@ _MB_QUICK = {"mb_delta_10_00", "mb_delta_00_10", "mb_delta_10_20", "mb_delta_12_
 for _n in _MB_ALL:
     _k(_n, "membership", "B", "watch_membership_changes", f"transition {_n[9:]}: " + _MB,
        bound="3 ids x {absent, addr A, addr B} x 2 DCs, one transition per harness", tier="quick" if _n in _MB_QUICK else "thorough")
+
+# ---- unit clock
+_k("ck_two_events", "clock", "P", "run_clock",
+   "arbitrary clock state, any two events, arbitrary wall reading per event: Get replies are strictly increasing in channel order, carry the node id, and a Get after an "
+   "accepted Register(remote) is > remote")
+_k("ck_get_time", "clock", "P", "Clock::get_time", "sends exactly one Get event and returns the reply delivered on its own oneshot")
+_k("ck_register", "clock", "P", "Clock::register_ts", "own stamps ignored; otherwise exactly one Register event carrying the stamp")
 
 # ---- Verus lemma layer (each file = shared exec kernels proved equal to spec kernels + lemmas)
 _v("lemmas_lww", "lemmas/lww.rs", "kernels k_insert/k_delete/k_cut/k_before/k_will_apply/k_lacks/k_max_stamp/k_safe; lemma layer",
